@@ -249,7 +249,7 @@ def h_lns(s, max_iter, minimize, accept, revisit, stop=0):
         repro(s, "lns", nat)
 
 
-def h_alns(s, max_iter, minimize, accept, stop=0):
+def h_alns(s, max_iter, minimize, accept, stop=0, knobs=None):
     mod = importlib.import_module("solvor.lns")
     ctr = [0]
 
@@ -273,7 +273,7 @@ def h_alns(s, max_iter, minimize, accept, stop=0):
         obj = Obj(s, flip)
         s.patch(mod, Random=SymRandom(s), exp=ExpStub(s))
         res = mod.alns(0, obj, [d0, d1], [r0, r1], minimize=mn, accept=accept, start_temp=start_temp, cooling_rate=0.5, segment_size=2,
-                       max_iter=max_iter, max_no_improve=3, seed=1, **_stop_kw(stop))
+                       max_iter=max_iter, max_no_improve=3, seed=1, **_stop_kw(stop), **(knobs or {}))
         return res, obj
 
     if minimize:
@@ -357,7 +357,7 @@ def _stop_kw(stop):
     return {"on_progress": cb, "progress_interval": 1}
 
 
-def h_de(s, iters, minimize, strategy, init=False, stop=0, pop=4):
+def h_de(s, iters, minimize, strategy, init=False, stop=0, pop=4, knobs=None):
     mod = importlib.import_module("solvor.differential_evolution")
     bounds = [(-1.0, 2.0), (0.0, 1.0)]
     # user-supplied starting points (one outside the box: documented to be clipped); "at least as good as the starting point(s)"
@@ -367,7 +367,7 @@ def h_de(s, iters, minimize, strategy, init=False, stop=0, pop=4):
     def run(mn, flip):
         obj = Obj(s, flip, key=lambda p: tuple(str(x).replace("-", "m").replace(".", "p") for x in _pkey(p)))
         s.patch(mod, Random=HalfSymRandom(s))
-        kw = dict(_stop_kw(stop))
+        kw = dict(_stop_kw(stop), **(knobs or {}))
         if init:
             kw["initial_population"] = [list(p) for p in starts]
         res = mod.differential_evolution(obj, bounds, minimize=mn, population_size=pop, max_iter=iters, seed=2, strategy=strategy, tol=0.0, **kw)
@@ -391,7 +391,7 @@ def h_de(s, iters, minimize, strategy, init=False, stop=0, pop=4):
     s.observe("objective", res.objective)
 
 
-def h_pso(s, iters, minimize, init=False, decay=False, stop=0):
+def h_pso(s, iters, minimize, init=False, decay=False, stop=0, knobs=None):
     mod = importlib.import_module("solvor.particle_swarm")
     bounds = [(-1.0, 2.0), (0.0, 1.0)]
     starts = [[5.0, 0.5], [0.25, 0.25]] if init else []
@@ -404,7 +404,7 @@ def h_pso(s, iters, minimize, init=False, decay=False, stop=0):
     def run(mn, flip):
         obj = Obj(s, flip, key=lambda p: tuple(str(x).replace("-", "m").replace(".", "p") for x in _pkey(p)))
         s.patch(mod, Random=PsoRandom(s))
-        kw = dict(_stop_kw(stop))
+        kw = dict(_stop_kw(stop), **(knobs or {}))
         if init:
             kw["initial_positions"] = [list(p) for p in starts]
         if decay:
@@ -429,13 +429,13 @@ def h_pso(s, iters, minimize, init=False, decay=False, stop=0):
     s.observe("objective", res.objective)
 
 
-def h_nm(s, dim, iters, minimize, adaptive=False, stop=0):
+def h_nm(s, dim, iters, minimize, adaptive=False, stop=0, knobs=None):
     mod = importlib.import_module("solvor.nelder_mead")
     x0 = [0.5] * dim
 
     def run(mn, flip):
         obj = Obj(s, flip, key=lambda p: tuple(str(x).replace("-", "m").replace(".", "p") for x in _pkey(p)))
-        res = mod.nelder_mead(obj, x0, minimize=mn, max_iter=iters, tol=0.0, adaptive=adaptive, **_stop_kw(stop))
+        res = mod.nelder_mead(obj, x0, minimize=mn, max_iter=iters, tol=0.0, adaptive=adaptive, **_stop_kw(stop), **(knobs or {}))
         return res, obj
 
     if minimize:
@@ -578,6 +578,13 @@ def items(tier, rng):
             add("nm", "h_nm", {"dim": dim, "iters": 2 + x, "minimize": mn})
         add("nm_adaptive", "h_nm", {"dim": 2, "iters": 2 + x, "minimize": mn, "adaptive": True})
         add("nm_stop", "h_nm", {"dim": 2, "iters": 4, "minimize": mn, "stop": 2}, mp=150 if q else 1500)
+        # numeric knobs away from their defaults
+        add("alns_knobs", "h_alns", {"max_iter": 3, "minimize": mn, "accept": "simulated_annealing",
+                                     "knobs": {"destroy_weights": [1.0, 3.0], "repair_weights": [2.0, 0.5], "reaction_factor": 0.5, "score_best": 5.0,
+                                               "score_better": 1.5, "score_accept": 0.25}}, mp=200 if q else 2000)
+        add("de_knobs", "h_de", {"iters": 1 + x, "minimize": mn, "strategy": "rand/1", "knobs": {"mutation": 0.5, "crossover": 0.9}})
+        add("pso_knobs", "h_pso", {"iters": 1 + x, "minimize": mn, "knobs": {"inertia": 0.9, "cognitive": 0.5, "social": 2.5, "v_max": 0.25}})
+        add("nm_knobs", "h_nm", {"dim": 2, "iters": 2 + x, "minimize": mn, "knobs": {"initial_step": 0.5}})
         add("anneal_stop", "h_anneal", {"max_iter": 4, "minimize": mn, "cooling": "default", "revisit": False, "stop": 2}, mp=200 if q else 2000)
         add("lns_stop", "h_lns", {"max_iter": 3, "minimize": mn, "accept": "simulated_annealing", "revisit": False, "stop": 2}, mp=200 if q else 2000)
         add("alns_stop", "h_alns", {"max_iter": 3, "minimize": mn, "accept": "simulated_annealing", "stop": 2}, mp=200 if q else 2000)
